@@ -4,6 +4,8 @@ import (
 	"fmt"
 	"os"
 
+	disputetypes "github.com/tellor-io/layer/x/dispute/types"
+
 	sdk "github.com/cosmos/cosmos-sdk/types"
 )
 
@@ -30,6 +32,15 @@ func (t *Tracer) snap(c *Chain, ctx sdk.Context, where string) {
 }
 func (t *Tracer) BeforeBlock(c *Chain, ctx sdk.Context) {
 	if t.on(c) {
+		_ = c.App.DisputeKeeper.Disputes.Walk(ctx, nil, func(id uint64, d disputetypes.Dispute) (bool, error) {
+			ex := "-"
+			if v, err := c.App.DisputeKeeper.Votes.Get(ctx, id); err == nil {
+				ex = fmt.Sprintf("res=%s exec=%v", v.VoteResult, v.Executed)
+			}
+			has, _ := c.App.ReporterKeeper.DisputedDelegationAmounts.Has(ctx, d.HashId)
+			fmt.Fprintf(os.Stderr, "TRACE   dispute %d round=%d status=%s open=%v pend=%v cat=%s slash=%s fee=%s burn=%s escrowrec=%v %s hash=%x\n", id, d.DisputeRound, d.DisputeStatus, d.Open, d.PendingExecution, d.DisputeCategory, d.SlashAmount, d.FeeTotal, d.BurnAmount, has, ex, d.HashId[:4])
+			return false, nil
+		})
 		fmt.Fprintf(os.Stderr, "TRACE ---- block %d time %s\n", c.Height+1, c.Time)
 		vals, _ := c.App.StakingKeeper.GetAllValidators(ctx)
 		for _, v := range vals {
